@@ -386,7 +386,7 @@ def run(ctx):
     lines, post = [], []
 
     # ---- norm
-    for i in range(ctx.scale(90, 1200)):
+    for i in range(ctx.scale(300, 2000)):
         inp, tag = gen_norm(rng)
         case = {"stream": "norm", "input": inp, "prop": rng.randint(0, 3), "via": rng.choice(["ctor", "ctor", "aset"]), "tag": tag}
         got = impl_norm(case)
@@ -400,7 +400,7 @@ def run(ctx):
         post.append(("norm", case, got))
 
     # ---- predicates
-    for i in range(ctx.scale(90, 1200)):
+    for i in range(ctx.scale(300, 2000)):
         p, tag = gen_tensor(rng)
         p = [float(x) for x in p]
         case = {"stream": "pred", "tensor": p, "tag": tag}
@@ -413,7 +413,7 @@ def run(ctx):
         post.append(("pred", case, got))
 
     # ---- material lists
-    for i in range(ctx.scale(60, 800)):
+    for i in range(ctx.scale(200, 1500)):
         n = rng.randint(1, 5)
         names = rng.shuffle(["air", "si", "sio2", "poly", "zz", "A", "b2"])[:n]
         desc = [[nm, gen_mat(rng)] for nm in names]
@@ -435,7 +435,7 @@ def run(ctx):
         post.append(("mats", case, (inames, ilists, [nm for nm, _ in desc])))
 
     # ---- complex permittivity
-    for i in range(ctx.scale(80, 1000)):
+    for i in range(ctx.scale(250, 1500)):
         eps, tag = gen_cplx_value(rng)
         mu, mtag = (None, "default") if rng.chance(0.6) else gen_cplx_value(rng, allow_bad=rng.chance(0.2))
         case = {"stream": "cplx", "eps": eps, "mu": mu, "ref": gen_reference(rng), "tag": tag, "mu_tag": mtag}
